@@ -74,8 +74,17 @@ def run(repo: Repo, chk: Check, thorough: bool = False) -> None:
     if tr is not None:
         for h in tr.handlers:
             hn = ', '.join(handler_names(h))
-            fb = [c for st in h.body for c in ast.walk(st) if isinstance(c, ast.Call) and
-                  any(g.qn == PLAINTEXT_PARSE for g in repo.callees(c, f)[0])]
+            def _plain(c: ast.Call) -> bool:
+                """plaintext.parse_docstring(...), or a private helper of the module that hands its first parameter on to it"""
+                for g in repo.callees(c, f)[0]:
+                    if g.qn == PLAINTEXT_PARSE:
+                        return True
+                    if g.mod is f.mod and g.name.startswith('_') and g.params():
+                        p0 = g.params()[0].arg
+                        if any(any(k.qn == PLAINTEXT_PARSE for k in repo.callees(x, g)[0]) and x.args and norm(x.args[0]) == p0 for x in calls_in(g)):
+                            return True
+                return False
+            fb = [c for st in h.body for c in ast.walk(st) if isinstance(c, ast.Call) and _plain(c)]
             ok = bool(fb) and all(c.args and isinstance(c.args[0], ast.Name) and c.args[0].id == docparam for c in fb) and not reraises(h)
             chk.ob('R08.1', f'{PARSE_BARRIER} :: except {hn} falls back to plaintext(original text)', ok,
                    f'handler assigns plaintext.parse_docstring({docparam}, ...)' if ok else
@@ -265,13 +274,14 @@ def run(repo: Repo, chk: Check, thorough: bool = False) -> None:
     # ---------------------------------------------------------------- R08.5
     gs = repo.func(f'{PD}.get_summary')
     trs = [n for n in gs.walk() if isinstance(n, ast.Try)]
+    # on the CFG (exception edges to the handlers included): from the try that extracts the summary every path to the normal end of the function passes
+    # an assignment of self._summary, and the catch-all handler does not re-raise - wherever the assignment is written (in both arms, or once after the try)
+    cfgs_ = CFG(gs)
+    stores_s = [n for n in gs.walk() if isinstance(n, ast.Assign) and any(dotted(x) == 'self._summary' for x in n.targets)]
     ok = False
     for t in trs:
-        def assigns_summary(stmts: List[ast.stmt]) -> bool:
-            return any(isinstance(n, ast.Assign) and any(dotted(x) == 'self._summary' for x in n.targets)
-                       for st in stmts for n in ast.walk(st))
         ca = [h for h in t.handlers if is_catch_all(h)]
-        if ca and assigns_summary(ca[0].body) and (assigns_summary(t.orelse) or assigns_summary(t.body)) and not reraises(ca[0]):
+        if ca and stores_s and not reraises(ca[0]) and cfgs_.must_pass(t, cfgs_.EXIT, stores_s) and cfgs_.must_pass(ca[0], cfgs_.EXIT, stores_s):
             ok = True
     chk.ob('R08.5', f'{PD}.get_summary :: summary assigned on the failing and on the normal path', ok,
            'catch-all assigns a "broken summary" placeholder, else-branch assigns the summary' if ok else
